@@ -23,7 +23,12 @@ def run_lemma(fam, lem, timeout_ms=30000):
             solver_name = 'cvc5-1.0.3 --strings-exp'
         else:
             solver_name = 'z3-' + z3.get_version_string()
-            r = s.check()
+            from .verify import z3_cli_check
+            cli = z3_cli_check(s, timeout_ms)       # separate process: the in-process call may ignore its timeout
+            if cli is None or cli == 'sat':
+                r = s.check()                       # (a model is needed for the replay)
+            else:
+                r = z3.unsat if cli == 'unsat' else z3.unknown
         res = {'id': 'lemma:%s:%s' % (lem.name, oid), 'kind': 'lemma over contracts',
                'solver': [solver_name]}
         if r == z3.unsat:
